@@ -1229,4 +1229,160 @@ theorem Acct.drvResp {s s' : St} {obs : Obs} (h : Acct s) (hs : step s .drvResp 
       · simp only [Option.some.injEq, Prod.mk.injEq] at hs
         rw [← hs.1]; exact h.endDriver _ (by simp)
 
+/-- the driver takes request `i` off the queue; what it registers and what else it drops is the caller's -/
+theorem Acct.take {s s' : St} (h : Acct s) (hrun : s.drv = .running) {i : Nat} {rest : List Nat} {o oi' : Op}
+    (hq : s.opQ = i :: rest) (ho : s.ops[i]? = some o)
+    (hco : ∀ c, o.chan = some c → ∃ ch, s.chans[c]? = some ch ∧ ch.opIdx = i)
+    (hq' : s'.opQ = rest) (hd : s'.drv = s.drv) (hsq : s'.scrubQ = s.scrubQ) (hc : s'.chans = s.chans)
+    (hlen : s'.ops.length = s.ops.length)
+    (hin : ∀ k ∈ s'.inUse, k ∈ s.inUse)
+    (hoi : s'.ops[i]? = some oi') (hoi1 : oi'.id = o.id) (hoi2 : oi'.kind = o.kind) (hoi3 : oi'.chan = o.chan)
+    (hoi4 : oi'.res = o.res) (hoi5 : oi'.phase = .taken)
+    (hops : ∀ j, j ≠ i → ∀ oj', s'.ops[j]? = some oj' → ∃ oj, s.ops[j]? = some oj ∧ oj'.id = oj.id ∧ oj'.kind = oj.kind ∧
+      oj'.chan = oj.chan ∧ oj'.res = oj.res ∧ oj'.phase = oj.phase ∧
+      (oj' = oj ∨ (oj.phase = .taken ∧ oj.mail = .empty ∧ oj'.mail = .dropped ∧ ∀ p ∈ s'.resultmap, p.2 ≠ j)))
+    (hrm : ∀ p ∈ s'.resultmap, (p = (o.id, i) ∧ oi'.mail = .empty ∧ o.id ∈ s.inUse) ∨ p ∈ s.resultmap)
+    (hsm : ∀ p ∈ s'.searchmap, (p.1 = o.id ∧ o.chan = some p.2 ∧ oi'.mail = .ack ∧ o.id ∈ s.inUse) ∨ p ∈ s.searchmap)
+    (hreg1 : ∀ p ∈ s.resultmap, p.1 ∈ s'.inUse → p.1 ≠ o.id → p ∈ s'.resultmap)
+    (hreg2 : ∀ p ∈ s.searchmap, p.1 ∈ s'.inUse → p.1 ≠ o.id → p ∈ s'.searchmap)
+    (hregi : o.id ∈ s'.inUse → Reg s' i oi') : Acct s' := by
+  obtain ⟨a1, a2, a3, a4, a5, a6, a7, a8, a9, a10, a11, a12, a13⟩ := h
+  have hnd : i ∉ rest ∧ rest.Nodup := by rw [hq] at a13; exact List.nodup_cons.mp a13
+  have hoq : o.phase = .queued := by
+    obtain ⟨o2, ho2, hp⟩ := a1 i (by rw [hq]; simp)
+    rw [ho] at ho2; cases ho2; exact hp
+  obtain ⟨hom, hor⟩ := a3 i o ho (by rw [hoq]; simp)
+  have hor' : o.res = none ∨ o.res = some .timeout := by
+    rcases hor with r | r
+    · exact Or.inl r
+    · exact Or.inr r.1
+  have hfwd : ∀ j, j ≠ i → ∀ oj, s.ops[j]? = some oj → ∃ oj', s'.ops[j]? = some oj' ∧ oj'.id = oj.id ∧ oj'.kind = oj.kind ∧
+      oj'.chan = oj.chan ∧ oj'.res = oj.res ∧ oj'.phase = oj.phase ∧
+      (oj' = oj ∨ (oj.phase = .taken ∧ oj.mail = .empty ∧ oj'.mail = .dropped ∧ ∀ p ∈ s'.resultmap, p.2 ≠ j)) := by
+    intro j hji oj hoj
+    have hj : j < s'.ops.length := by rw [hlen]; exact (List.getElem?_eq_some_iff.mp hoj).1
+    obtain ⟨o2, ho2, r⟩ := hops j hji s'.ops[j] (List.getElem?_eq_getElem hj)
+    rw [hoj] at ho2; cases ho2
+    exact ⟨s'.ops[j], List.getElem?_eq_getElem hj, r⟩
+  have htimeout : o.id ∈ s.inUse → o.res = some .timeout → o.id ∈ s.scrubQ := by
+    intro hidin hto
+    rcases a8 i (by rw [hq]; simp) o ho hto with r | r
+    · exact r
+    · exact absurd hidin r
+  refine ⟨?_, ?_, ?_, ?_, ?_, ?_, ?_, ?_, ?_, ?_, ?_, ?_, by rw [hq']; exact hnd.2⟩
+  · intro j hj; rw [hq'] at hj
+    have hji : j ≠ i := fun e => hnd.1 (e ▸ hj)
+    obtain ⟨oj, hoj, hp⟩ := a1 j (by rw [hq]; exact List.mem_cons_of_mem _ hj)
+    obtain ⟨oj', hoj', _, _, _, _, hph, _⟩ := hfwd j hji oj hoj
+    exact ⟨oj', hoj', by rw [hph]; exact hp⟩
+  · intro j oj' hoj' hp
+    by_cases hji : j = i
+    · subst hji; rw [hoi] at hoj'; cases hoj'; rw [hoi5] at hp; cases hp
+    · obtain ⟨oj, hoj, _, _, _, _, hph, _⟩ := hops j hji oj' hoj'
+      have := a2 j oj hoj (by rw [← hph]; exact hp)
+      rw [hq] at this; rw [hq']
+      simp only [List.mem_cons] at this
+      rcases this with e | e
+      · exact absurd e hji
+      · exact e
+  · intro j oj' hoj' hp
+    by_cases hji : j = i
+    · subst hji; rw [hoi] at hoj'; cases hoj'; exact absurd hoi5 hp
+    · obtain ⟨oj, hoj, _, _, _, _, hph, heq⟩ := hops j hji oj' hoj'
+      rcases heq with e | ⟨ht, _⟩
+      · subst e; exact a3 j oj' hoj hp
+      · exact absurd (by rw [hph]; exact ht) hp
+  · intro j oj' hoj'
+    by_cases hji : j = i
+    · subst hji; rw [hoi] at hoj'; cases hoj'; rw [hoi2, hoi3]; exact a4 j o ho
+    · obtain ⟨oj, hoj, _, hk, hch, _⟩ := hops j hji oj' hoj'
+      rw [hk, hch]; exact a4 j oj hoj
+  · intro p hp
+    rcases hrm p hp with ⟨e, hm, hidin⟩ | hold
+    · subst e
+      refine ⟨oi', hoi, hoi1, hoi5, hm, ?_⟩
+      rw [hoi4, hsq]
+      rcases hor' with r | r
+      · exact Or.inl r
+      · exact Or.inr ⟨r, htimeout hidin r⟩
+    · obtain ⟨oj, hoj, hid, hpt, hm, hrs⟩ := a5 p hold
+      have hji : p.2 ≠ i := by
+        intro e; rw [e, ho] at hoj; cases hoj; rw [hoq] at hpt; cases hpt
+      obtain ⟨oj', hoj', _, _, _, _, _, heq⟩ := hfwd p.2 hji oj hoj
+      rcases heq with e | ⟨_, _, _, hno⟩
+      · subst e; exact ⟨oj', hoj', hid, hpt, hm, by rw [hsq]; exact hrs⟩
+      · exact absurd rfl (hno p hp)
+  · intro p hp
+    rcases hsm p hp with ⟨e, hch, hm, hidin⟩ | hold
+    · obtain ⟨ch, hcc, hidx⟩ := hco p.2 hch
+      have hcf := a7 p.2 ch o hcc (by rw [hidx]; exact ho)
+      have hne : o.res ≠ some .ack := by rcases hor' with r | r <;> rw [r] <;> simp
+      refine ⟨ch, oi', by rw [hc]; exact hcc, by rw [hidx]; exact hoi, by rw [hoi1, e], by rw [hoi3]; exact hch, hoi5, hm, ?_, ?_, ?_⟩
+      · intro f hf; rw [hcf.2 (by rw [hoq]; simp)] at hf; cases hf
+      · rw [(hcf.1 hne).1, (hcf.1 hne).2, hoi4, hsq, e]
+        intro hh
+        rcases hh with hh | hh | hh
+        · cases hh
+        · cases hh
+        · exact htimeout hidin hh
+      · rw [hoi4]
+        rcases hor' with r | r
+        · exact Or.inl r
+        · exact Or.inr (Or.inr r)
+    · obtain ⟨ch, oj, hcc, hoj, hid, hch, hpt, hm, hnd', himp, hrs⟩ := a6 p hold
+      have hji : ch.opIdx ≠ i := by
+        intro e; rw [e, ho] at hoj; cases hoj; rw [hoq] at hpt; cases hpt
+      obtain ⟨oj', hoj', _, _, _, _, _, heq⟩ := hfwd _ hji oj hoj
+      rcases heq with e | ⟨_, hme, _, _⟩
+      · subst e
+        exact ⟨ch, oj', by rw [hc]; exact hcc, hoj', hid, hch, hpt, hm, hnd', by rw [hsq]; exact himp, hrs⟩
+      · rw [hm] at hme; cases hme
+  · intro c ch oj' hcc hoj'
+    rw [hc] at hcc
+    by_cases hji : ch.opIdx = i
+    · rw [hji, hoi] at hoj'; cases hoj'
+      have := a7 c ch o hcc (by rw [hji]; exact ho)
+      exact ⟨fun hne => this.1 (by rw [← hoi4]; exact hne), fun hp => absurd hoi5 hp⟩
+    · obtain ⟨oj, hoj, _, _, _, hres, hph, _⟩ := hops _ hji oj' hoj'
+      have := a7 c ch oj hcc hoj
+      exact ⟨fun hne => this.1 (by rw [← hres]; exact hne), fun hp => this.2 (by rw [← hph]; exact hp)⟩
+  · intro j hj oj' hoj' hto
+    rw [hq'] at hj
+    have hji : j ≠ i := fun e => hnd.1 (e ▸ hj)
+    obtain ⟨oj, hoj, hid, _, _, hres, _⟩ := hops j hji oj' hoj'
+    rw [hid, hsq]
+    rcases a8 j (by rw [hq]; exact List.mem_cons_of_mem _ hj) oj hoj (by rw [← hres]; exact hto) with r | r
+    · exact Or.inl r
+    · exact Or.inr (fun hmem => r (hin _ hmem))
+  · intro j oj' hoj' hh
+    by_cases hji : j = i
+    · subst hji; rw [hoi] at hoj'; cases hoj'; exact hoi5
+    · obtain ⟨oj, hoj, _, _, _, hres, hph, heq⟩ := hops j hji oj' hoj'
+      rcases heq with e | ⟨ht, _⟩
+      · subst e; exact a9 j oj' hoj hh
+      · rw [hph]; exact ht
+  · intro _ k hk
+    by_cases hko : k = o.id
+    · exact ⟨i, oi', hoi, by rw [hoi1, hko], hregi (hko ▸ hk)⟩
+    · obtain ⟨j, oj, hoj, hid, hreg⟩ := a10 hrun k (hin k hk)
+      have hji : j ≠ i := by
+        intro e; rw [e, ho] at hoj; cases hoj; exact hko hid.symm
+      obtain ⟨oj', hoj', hid', hkind, hchn, _, hph, _⟩ := hfwd j hji oj hoj
+      refine ⟨j, oj', hoj', by rw [hid']; exact hid, ?_⟩
+      unfold Reg at hreg ⊢
+      rw [hph, hq', hid', hchn, hkind]
+      rcases hreg with r | r | r | ⟨c, r1, r2⟩ | r
+      · exact Or.inl r
+      · refine Or.inr (Or.inl ?_)
+        rw [hq] at r; simp only [List.mem_cons] at r
+        rcases r with e | e
+        · exact absurd e hji
+        · exact e
+      · exact Or.inr (Or.inr (Or.inl (hreg1 _ r (by rw [hid]; exact hk) (by rw [hid]; exact hko))))
+      · exact Or.inr (Or.inr (Or.inr (Or.inl ⟨c, r1, hreg2 _ r2 (by rw [hid]; exact hk) (by rw [hid]; exact hko)⟩)))
+      · exact Or.inr (Or.inr (Or.inr (Or.inr r)))
+  · intro hd2; rw [hd] at hd2; exact absurd hrun hd2
+  · intro c ch hcc
+    rw [hc] at hcc; rw [hlen]; exact a12 c ch hcc
+
 end Ldap3V.Conn
